@@ -237,6 +237,27 @@ func cycle(t *lib.Trace, r *rand.Rand, cyc int) {
 			if r.Intn(2) == 0 {
 				z = ", z: 'tail'"
 			}
+			if r.Intn(4) == 0 {
+				// a stored record with explicit empty trailing fields (not trimmed)
+				k := 100 + r.Intn(60)
+				e := try(func() {
+					var rb core.RecordBuilder
+					rb.Add(core.IntVal(k))
+					for n := 1 + r.Intn(3); n > 0; n-- {
+						rb.Add(core.SuStr(""))
+					}
+					ut := db.NewUpdateTran()
+					ut.Output(th, "t2", rb.Build())
+					if s := ut.Complete(); s != "" {
+						panic(s)
+					}
+				})
+				if e == "" {
+					hist = append(hist, fmt.Sprintf("output untrimmed {k: %d, '', …} into t2", k))
+					t.Count("untrimmed-record")
+				}
+				continue
+			}
 			action(fmt.Sprintf("insert { k: %d, big: '%s'%s } into t2", r.Intn(60), big, z))
 			t.Count(fmt.Sprintf("recsize=%d", size))
 		case 9:
